@@ -42,4 +42,12 @@ CLAIMS = {
                 'which is exactly what the KNOWN-FINDING line reports.',
         'technique': 'Lean 4 invariant proof + quirk-switch model + differential correspondence',
     },
+    'C19': {
+        'text': 'Theorems in Lean 4 for all version lists and all call histories: result = highest common version, symmetric, base version '
+                'when none advertised, error on every call when none is common (ideal), cached value stable, same version on both sides inverts '
+                'the uTP framing. The code is compared with the model exhaustively over short lists on {0,1,2} and on random lists; the cached-error '
+                'deviation is a decided counter-example and a known finding.',
+        'note': TB + 'the version cache is modelled per peer as an Option; TTL expiry and LRU eviction are not modelled. Real two-node transfers per pairing are exercised under C08/C09.',
+        'technique': 'Lean 4 proof (fold invariant, induction over call histories) + exhaustive/differential correspondence',
+    },
 }
